@@ -268,7 +268,9 @@ class EcoMAX(PhysicalDevice):
         self, schedules: list[tuple[int, list[list[bool]]]]
     ) -> dict[str, Schedule]:
         """Add schedules to the dataset."""
-        return {
+        # Keep the schedules from the earlier responses, that are not
+        # listed in this one: their parameters still refer to them.
+        return self.data.get(ATTR_SCHEDULES, {}) | {
             SCHEDULES[index]: Schedule(
                 name=SCHEDULES[index],
                 device=self,
